@@ -1605,7 +1605,10 @@ def xmlToTag(tag: str) -> str:
     """The opposite of tagToXML()"""
     if tag == "OS_2":
         return Tag("OS/2")
-    if len(tag) == 8:
+    if len(tag) > 4:
+        # a raw tag is at most four characters long, so any longer name was
+        # mangled by tagToIdentifier (8 characters, 9 with a leading underscore,
+        # fewer when trailing spaces were trimmed)
         return identifierToTag(tag)
     else:
         return Tag(tag + " " * (4 - len(tag)))
